@@ -82,6 +82,7 @@ let run () =
          | QValue None -> out "none"
          | QNoVersion -> out "noversion"
          | QNoStore -> out "err")
+      | ["K"; _] -> out "done"     (* a private copy loads a version: nothing happens to the store itself *)
       | ["V"; st; k; h] ->
         (* CacheMultiStoreWithVersion: every substore must hold that version, then the value committed there *)
         let hz = z_of_string h in
